@@ -4,6 +4,9 @@ from .. import boot, tlc, classes, lifecycle
 from ..core import main
 
 
+WEIGHTED = {"ClassifierAfterKMeans", "PiecewiseRegressor", "IntervalRegressor", "TransformedTargetRegressor2", "QuantileLinearRegression"}
+
+
 def scenario(hist, entry, rng):
     """new(a), new(b); single-key sets on a (every advertised alternative); clone; idempotent set; cross-feed b <- a; fit both"""
     a, b = entry.make(0), entry.make(1)
@@ -27,6 +30,15 @@ def scenario(hist, entry, rng):
         if k1 in va and k2 in va and not (k1.startswith(k2 + "__") or k2.startswith(k1 + "__")) \
                 and not hasattr(a1[0](), "get_params") and not hasattr(a2[0](), "get_params"):
             hist.set(a, {k1: a1[0](), k2: a2[0]()})
+    # an estimator and one of ITS parameters in the same call (a grid over a step and its options): the new estimator is
+    # installed first, then configured
+    for key, alts in entry.sets:
+        if hasattr(alts[0](), "get_params"):
+            nested = [(k2, a2) for k2, a2 in entry.sets if k2.startswith(key + "__") and not hasattr(a2[0](), "get_params")]
+            for k2, a2 in nested[:1]:
+                new = alts[0]()
+                if k2.split("__", 1)[1] in new.get_params(deep=True):
+                    hist.set(a, {key: new, k2: a2[-1]()})
     base = {k for k in vars(entry.make(0)) if k.endswith("_")}      # e.g. method_ is set by the constructor
     c = hist.clone(a, base)
     hist.clone(b, base)
@@ -43,7 +55,12 @@ def scenario(hist, entry, rng):
             import copy
             o = copy.deepcopy(obj)
             hist.objs[hist.handle(obj)] = o          # same handle, private copy
-            ok, _ = lifecycle.do_fit(hist, o, X, y, entry, seed, "D1")
+            extra = {}
+            if entry.name in WEIGHTED and y is not None:
+                extra["sample_weight"] = numpy.array([float(2 + (i % 3)) for i in range(X.shape[0])])
+            ok, _ = lifecycle.do_fit(hist, o, X, y, entry, seed, "D1w" if extra else "D1", extra=extra, expect_ok=not extra)
+            # equally configured instances behave identically - also in whether they can be trained at all
+            hist.t.setdefault("trains", []).append(bool(ok))
             if ok:
                 for m in entry.methods:
                     hist.obs(o, m, X, "BehavesIdentically", note="after cross-feed / clone")
@@ -128,6 +145,9 @@ def run(ctx):
             try:
                 if rep == 0:
                     scenario(hist, entry, rng)
+                    if len(set(hist.t.get("trains", []))) > 1:
+                        ctx.violation("BehavesIdentically", "C01 " + entry.name, "fit after cross-feed / clone",
+                                      "equally configured instances: some can be trained, some raise: %r" % (hist.t["trains"],))
                 else:
                     random_history(hist, entry, rng, rng.randint(8, 30))
             except Exception as e:
